@@ -38,6 +38,13 @@ void *body(void *p) {
     int code = b->codes[b->step];
     mine = shim_c.strerror_(code);
     mine_text = mine ? mine : "";
+    {
+      char want[512];
+      want[0] = 0;
+      const char *w = strerror_r(code < 0 ? -code : code, want, sizeof want);  // GNU variant: returns the message
+      if (w && mine_text != w && b->bad.empty())
+        b->bad = "thread " + std::to_string(a->id) + " asked for error " + std::to_string(code) + " and got '" + mine_text + "' instead of '" + w + "'";
+    }
     b->step++;
     pthread_cond_broadcast(&b->cv);
     pthread_mutex_unlock(&b->mu);
